@@ -52,6 +52,10 @@ func (c Config) Ports() []string {
 	if c.Orca == "l1only" {
 		return []string{"l1only"}
 	}
+	if c.Orca == "fwdget" || c.Orca == "backfill" {
+		// the orchestrators of the cluster proxy (app/memcached_cluster_proxy.go): L1 = source, L2 = destination
+		return []string{c.Orca}
+	}
 	if c.Batch {
 		return []string{"main", "batch"}
 	}
@@ -110,6 +114,12 @@ func Build(cfg Config, dir string, wrap Wrap) (*Stack, error) {
 		h2 = handlers.NilHandler
 	} else {
 		o = orcas.L1L2
+		switch cfg.Orca {
+		case "fwdget":
+			o = orcas.L1OnlyForwardGet
+		case "backfill":
+			o = orcas.Backfill
+		}
 		s.L2 = fakemc.New("l2", s.Clock)
 		s.L2Sock = filepath.Join(dir, "l2.sock")
 		if err := s.L2.ListenUnix(s.L2Sock); err != nil {
